@@ -184,17 +184,21 @@ impl TryFrom<Pair<'_, Rule>> for Variable {
     type Error = Error;
 
     fn try_from(pair: Pair<Rule>) -> Result<Self, Error> {
-        fn parse_int(pair: Pair<Rule>) -> Result<i64, Error> {
+        fn parse_int(pair: Pair<Rule>, negative: bool) -> Result<i64, Error> {
             let pair = pair.into_inner().next().unwrap();
             match pair.as_rule() {
-                Rule::binary_int => parse_int_with_radix(pair, 2),
-                Rule::octal_int => parse_int_with_radix(pair, 8),
-                Rule::decimal_int => parse_int_with_radix(pair, 10),
-                Rule::hexadecimal_int => parse_int_with_radix(pair, 16),
+                Rule::binary_int => parse_int_with_radix(pair, 2, negative),
+                Rule::octal_int => parse_int_with_radix(pair, 8, negative),
+                Rule::decimal_int => parse_int_with_radix(pair, 10, negative),
+                Rule::hexadecimal_int => parse_int_with_radix(pair, 16, negative),
                 rule => unexpected!(rule),
             }
         }
-        fn parse_int_with_radix(pair: Pair<Rule>, radix: u32) -> Result<i64, Error> {
+        fn parse_int_with_radix(
+            pair: Pair<Rule>,
+            radix: u32,
+            negative: bool,
+        ) -> Result<i64, Error> {
             let str = pair.as_str();
             let inner = pair
                 .into_inner()
@@ -202,15 +206,17 @@ impl TryFrom<Pair<'_, Rule>> for Variable {
                 .unwrap()
                 .as_str()
                 .replace([' ', '_'], "");
+            // the sign is parsed together with the digits: the magnitude of MIN_INT is not an i64
+            let inner = if negative { format!("-{inner}") } else { inner };
             i64::from_str_radix(&inner, radix).map_err(|_| Error::IntegerOverflow(str.into()))
         }
         match pair.as_rule() {
             Rule::r#true => Ok(Variable::Bool(true)),
             Rule::r#false => Ok(Variable::Bool(false)),
             Rule::minus_int => {
-                parse_int(pair.into_inner().next().unwrap()).map(|value| Variable::Int(-value))
+                parse_int(pair.into_inner().next().unwrap(), true).map(Variable::Int)
             }
-            Rule::int => parse_int(pair).map(Self::from),
+            Rule::int => parse_int(pair, false).map(Self::from),
             Rule::minus_float => {
                 let Ok(value) = pair.as_str().replace([' ', '_'], "").parse::<f64>() else {
                     return Err(Error::CannotBeParsed(pair.as_str().into()));
@@ -248,7 +254,7 @@ impl TryFrom<Pair<'_, Rule>> for Variable {
                 let mut inner = pair.into_inner();
                 let value = Variable::try_from(inner.next().unwrap())?;
                 let len_pair = inner.next().unwrap();
-                let len = parse_int(len_pair)?;
+                let len = parse_int(len_pair, false)?;
                 Ok(Array::new_repeat(value, len as usize).into())
             }
             Rule::struct_from_str => {
